@@ -18,6 +18,7 @@ package harness
 
 import (
 	"bytes"
+	"errors"
 	"io"
 	"encoding/base64"
 	"math/rand"
@@ -1085,6 +1086,7 @@ func TestC12(t *testing.T) {
 		}
 	}
 	c12Amounts(t, tr, w)
+	c12Consistency(t, tr, w)
 	c12KillSwitch(t, tr, w)
 	c12Wasm(t, tr, w)
 	if thorough() {
@@ -1365,6 +1367,234 @@ func c12Amounts(t *testing.T, tr *Trace, w *c12World) {
 	tr.Set("amount_cells", cells)
 }
 
+// ---------------------------------------------------------------------------------------------
+// consistency of the named position with the message's descriptive ids
+
+type c12ConsVariant struct {
+	handler, variant, who string
+	prep                  func(w *c12World, ctx sdk.Context)
+	mk                    func(w *c12World, s sdk.AccAddress, ctx sdk.Context) sdk.Msg
+}
+
+// c12ConsVariants: the rightful sender's own message with ONE descriptive id replaced by another VALID id of the same kind
+// (another product of the same app, another app, another asset / denom, another pair, another position of the same owner).
+// Small amounts, so that no ratio or limit check interferes. None of them may act on the named position.
+func c12ConsVariants() []c12ConsVariant {
+	i := sdk.NewInt
+	var out []c12ConsVariant
+	type vmsg func(w *c12World, s string, app, ext, vault uint64) sdk.Msg
+	vaultMsgs := map[string]vmsg{
+		"vault.MsgDeposit": func(w *c12World, s string, app, ext, v uint64) sdk.Msg {
+			return &vaulttypes.MsgDepositRequest{From: s, AppId: app, ExtendedPairVaultId: ext, UserVaultId: v, Amount: i(1000000)}
+		},
+		"vault.MsgWithdraw": func(w *c12World, s string, app, ext, v uint64) sdk.Msg {
+			return &vaulttypes.MsgWithdrawRequest{From: s, AppId: app, ExtendedPairVaultId: ext, UserVaultId: v, Amount: i(1000000)}
+		},
+		"vault.MsgDraw": func(w *c12World, s string, app, ext, v uint64) sdk.Msg {
+			return &vaulttypes.MsgDrawRequest{From: s, AppId: app, ExtendedPairVaultId: ext, UserVaultId: v, Amount: i(1000000)}
+		},
+		"vault.MsgRepay": func(w *c12World, s string, app, ext, v uint64) sdk.Msg {
+			return &vaulttypes.MsgRepayRequest{From: s, AppId: app, ExtendedPairVaultId: ext, UserVaultId: v, Amount: i(1000000)}
+		},
+		"vault.MsgClose": func(w *c12World, s string, app, ext, v uint64) sdk.Msg {
+			return &vaulttypes.MsgCloseRequest{From: s, AppId: app, ExtendedPairVaultId: ext, UserVaultId: v}
+		},
+		"vault.MsgDepositAndDraw": func(w *c12World, s string, app, ext, v uint64) sdk.Msg {
+			return &vaulttypes.MsgDepositAndDrawRequest{From: s, AppId: app, ExtendedPairVaultId: ext, UserVaultId: v, Amount: i(100000000)}
+		},
+	}
+	names := make([]string, 0, len(vaultMsgs))
+	for n := range vaultMsgs {
+		names = append(names, n)
+	}
+	sort.Strings(names)
+	for _, n := range names {
+		f := vaultMsgs[n]
+		add := func(variant string, pick func(w *c12World) (uint64, uint64, uint64)) {
+			out = append(out, c12ConsVariant{n, variant, "A", nil, func(w *c12World, s sdk.AccAddress, _ sdk.Context) sdk.Msg {
+				a, e, v := pick(w)
+				return f(w, s.String(), a, e, v)
+			}})
+		}
+		add("product=fixed-price sibling of the same app, vault on the oracle-price product", func(w *c12World) (uint64, uint64, uint64) { return w.appVault, w.fixedPair, w.vaultA })
+		add("product=oracle-price sibling, vault on the fixed-price product", func(w *c12World) (uint64, uint64, uint64) { return w.appVault, w.extPair, w.vaultF })
+		add("product=stable-mint product of the same app", func(w *c12World) (uint64, uint64, uint64) { return w.appVault, w.stablePair, w.vaultA })
+		add("app=lend app", func(w *c12World) (uint64, uint64, uint64) { return w.appLend, w.extPair, w.vaultA })
+		add("app=gov app", func(w *c12World) (uint64, uint64, uint64) { return w.appGov, w.extPair, w.vaultA })
+	}
+	// stable-mint vault (ownerless): product / app mismatch
+	for _, v := range []struct {
+		variant  string
+		app, ext func(w *c12World) uint64
+	}{
+		{"product=the other stable-mint product", func(w *c12World) uint64 { return w.appVault }, func(w *c12World) uint64 { return w.stablePair2 }},
+		{"product=a debt product of the same app", func(w *c12World) uint64 { return w.appVault }, func(w *c12World) uint64 { return w.extPair }},
+		{"app=lend app", func(w *c12World) uint64 { return w.appLend }, func(w *c12World) uint64 { return w.stablePair }},
+	} {
+		v := v
+		// stablePair2 has no vault yet: create it first so that the product itself is fully valid
+		prep := func(w *c12World, ctx sdk.Context) {
+			m := &vaulttypes.MsgCreateStableMintRequest{From: w.B.String(), AppId: w.appVault, ExtendedPairVaultId: w.stablePair2, Amount: i(500000000)}
+			if h := w.app.MsgServiceRouter().Handler(m); h != nil {
+				_, _ = h(ctx, m)
+			}
+		}
+		out = append(out, c12ConsVariant{"vault.MsgDepositStableMint", v.variant, "B", prep, func(w *c12World, s sdk.AccAddress, _ sdk.Context) sdk.Msg {
+			return &vaulttypes.MsgDepositStableMintRequest{From: s.String(), AppId: v.app(w), ExtendedPairVaultId: v.ext(w), Amount: i(200000000), StableVaultId: w.stableID}
+		}})
+		out = append(out, c12ConsVariant{"vault.MsgWithdrawStableMint", v.variant, "B", prep, func(w *c12World, s sdk.AccAddress, _ sdk.Context) sdk.Msg {
+			return &vaulttypes.MsgWithdrawStableMintRequest{From: s.String(), AppId: v.app(w), ExtendedPairVaultId: v.ext(w), Amount: i(150000000), StableVaultId: w.stableID}
+		}})
+	}
+	out = append(out, c12ConsVariant{"vault.MsgVaultInterestCalc", "app=lend app", "A", nil, func(w *c12World, s sdk.AccAddress, _ sdk.Context) sdk.Msg {
+		return &vaulttypes.MsgVaultInterestCalcRequest{From: s.String(), AppId: w.appLend, UserVaultId: w.vaultA}
+	}})
+	// locker: asset / app mismatch
+	for _, v := range []struct {
+		variant    string
+		app, asset func(w *c12World) uint64
+	}{
+		{"asset=a1", func(w *c12World) uint64 { return w.appVault }, func(w *c12World) uint64 { return w.a1 }},
+		{"asset=a3", func(w *c12World) uint64 { return w.appVault }, func(w *c12World) uint64 { return w.a3 }},
+		{"app=lend app", func(w *c12World) uint64 { return w.appLend }, func(w *c12World) uint64 { return w.a2 }},
+	} {
+		v := v
+		out = append(out,
+			c12ConsVariant{"locker.MsgDepositAsset", v.variant, "A", nil, func(w *c12World, s sdk.AccAddress, _ sdk.Context) sdk.Msg {
+				return &lockertypes.MsgDepositAssetRequest{Depositor: s.String(), LockerId: w.lockerA, Amount: i(1000000), AssetId: v.asset(w), AppId: v.app(w)}
+			}},
+			c12ConsVariant{"locker.MsgWithdrawAsset", v.variant, "A", nil, func(w *c12World, s sdk.AccAddress, _ sdk.Context) sdk.Msg {
+				return &lockertypes.MsgWithdrawAssetRequest{Depositor: s.String(), LockerId: w.lockerA, Amount: i(1000000), AssetId: v.asset(w), AppId: v.app(w)}
+			}},
+			c12ConsVariant{"locker.MsgCloseLocker", v.variant, "A", nil, func(w *c12World, s sdk.AccAddress, _ sdk.Context) sdk.Msg {
+				return &lockertypes.MsgCloseLockerRequest{Depositor: s.String(), AppId: v.app(w), AssetId: v.asset(w), LockerId: w.lockerA}
+			}})
+	}
+	out = append(out, c12ConsVariant{"locker.MsgLockerRewardCalc", "app=lend app", "A", nil, func(w *c12World, s sdk.AccAddress, _ sdk.Context) sdk.Msg {
+		return &lockertypes.MsgLockerRewardCalcRequest{From: s.String(), AppId: w.appLend, LockerId: w.lockerA}
+	}})
+	// lend: lend id / borrow id vs denom, pair
+	out = append(out,
+		c12ConsVariant{"lend.Deposit", "denom=uasset3 into the uasset1 position", "A", nil, func(w *c12World, s sdk.AccAddress, _ sdk.Context) sdk.Msg {
+			return &lendtypes.MsgDeposit{Lender: s.String(), LendId: w.lendA, Amount: coin("uasset3", 1000000)}
+		}},
+		c12ConsVariant{"lend.Deposit", "denom=uasset1 into the uasset3 position", "A", nil, func(w *c12World, s sdk.AccAddress, _ sdk.Context) sdk.Msg {
+			return &lendtypes.MsgDeposit{Lender: s.String(), LendId: w.lendA3, Amount: coin("uasset1", 1000000)}
+		}},
+		c12ConsVariant{"lend.Withdraw", "denom=uasset3 from the uasset1 position", "A", nil, func(w *c12World, s sdk.AccAddress, _ sdk.Context) sdk.Msg {
+			return &lendtypes.MsgWithdraw{Lender: s.String(), LendId: w.lendA, Amount: coin("uasset3", 1000000)}
+		}},
+		c12ConsVariant{"lend.Withdraw", "denom=uasset1 from the uasset3 position", "A", nil, func(w *c12World, s sdk.AccAddress, _ sdk.Context) sdk.Msg {
+			return &lendtypes.MsgWithdraw{Lender: s.String(), LendId: w.lendA3, Amount: coin("uasset1", 1000000)}
+		}},
+		c12ConsVariant{"lend.Borrow", "pair=a1->a2 with the uasset3 lend position, collateral ucasset1", "A", nil, func(w *c12World, s sdk.AccAddress, _ sdk.Context) sdk.Msg {
+			return &lendtypes.MsgBorrow{Borrower: s.String(), LendId: w.lendA3, PairId: w.lendPairA1A2, AmountIn: coin("ucasset1", 100000000), AmountOut: coin("uasset2", 20000000)}
+		}},
+		c12ConsVariant{"lend.Borrow", "pair=a1->a2 with the uasset3 lend position, collateral ucasset3", "A", nil, func(w *c12World, s sdk.AccAddress, _ sdk.Context) sdk.Msg {
+			return &lendtypes.MsgBorrow{Borrower: s.String(), LendId: w.lendA3, PairId: w.lendPairA1A2, AmountIn: coin("ucasset3", 100000000), AmountOut: coin("uasset2", 20000000)}
+		}},
+		c12ConsVariant{"lend.Borrow", "pair=cross-pool a1->a4 with the uasset3 lend position", "A", nil, func(w *c12World, s sdk.AccAddress, _ sdk.Context) sdk.Msg {
+			return &lendtypes.MsgBorrow{Borrower: s.String(), LendId: w.lendA3, PairId: w.lendPairX, AmountIn: coin("ucasset1", 100000000), AmountOut: coin("uasset4", 20000000)}
+		}},
+		c12ConsVariant{"lend.Borrow", "loan denom=uasset4 on the pair a1->a3", "A", nil, func(w *c12World, s sdk.AccAddress, _ sdk.Context) sdk.Msg {
+			return &lendtypes.MsgBorrow{Borrower: s.String(), LendId: w.lendA, PairId: w.lendPairA1A3, AmountIn: coin("ucasset1", 100000000), AmountOut: coin("uasset4", 20000000)}
+		}},
+		c12ConsVariant{"lend.Draw", "denom=uasset4 on the uasset2 borrow", "A", nil, func(w *c12World, s sdk.AccAddress, _ sdk.Context) sdk.Msg {
+			return &lendtypes.MsgDraw{Borrower: s.String(), BorrowId: w.borrowA, Amount: coin("uasset4", 1000000)}
+		}},
+		c12ConsVariant{"lend.Draw", "denom=uasset2 on the cross-pool uasset4 borrow", "A", nil, func(w *c12World, s sdk.AccAddress, _ sdk.Context) sdk.Msg {
+			return &lendtypes.MsgDraw{Borrower: s.String(), BorrowId: w.borrowAX, Amount: coin("uasset2", 1000000)}
+		}},
+		c12ConsVariant{"lend.Repay", "denom=uasset4 on the uasset2 borrow", "A", nil, func(w *c12World, s sdk.AccAddress, _ sdk.Context) sdk.Msg {
+			return &lendtypes.MsgRepay{Borrower: s.String(), BorrowId: w.borrowA, Amount: coin("uasset4", 1000000)}
+		}},
+		c12ConsVariant{"lend.Repay", "denom=uasset4, amount = the exact uasset2 debt (close shortcut)", "A", nil, func(w *c12World, s sdk.AccAddress, ctx sdk.Context) sdk.Msg {
+			b, _ := w.app.LendKeeper.GetBorrow(ctx, w.borrowA)
+			return &lendtypes.MsgRepay{Borrower: s.String(), BorrowId: w.borrowA, Amount: sdk.NewCoin("uasset4", b.AmountOut.Amount.Add(b.InterestAccumulated.TruncateInt()))}
+		}},
+		c12ConsVariant{"lend.DepositBorrow", "denom=ucasset3 on the ucasset1-collateral borrow", "A", nil, func(w *c12World, s sdk.AccAddress, _ sdk.Context) sdk.Msg {
+			return &lendtypes.MsgDepositBorrow{Borrower: s.String(), BorrowId: w.borrowA, Amount: coin("ucasset3", 1000000)}
+		}},
+		// liquidity: pool id vs app id, farm coin vs pool
+		c12ConsVariant{"liquidity.Farm", "app=vault app", "A", nil, func(w *c12World, s sdk.AccAddress, _ sdk.Context) sdk.Msg {
+			return liquiditytypes.NewMsgFarm(w.appVault, w.liqPool, s, sdk.NewCoin(w.poolCoinDenom, i(1000000)))
+		}},
+		c12ConsVariant{"liquidity.Farm", "coin=uasset1 instead of the pool coin", "A", nil, func(w *c12World, s sdk.AccAddress, _ sdk.Context) sdk.Msg {
+			return liquiditytypes.NewMsgFarm(w.appLiq, w.liqPool, s, coin("uasset1", 1000000))
+		}},
+		c12ConsVariant{"liquidity.Unfarm", "app=vault app", "A", nil, func(w *c12World, s sdk.AccAddress, _ sdk.Context) sdk.Msg {
+			return liquiditytypes.NewMsgUnfarm(w.appVault, w.liqPool, s, sdk.NewCoin(w.poolCoinDenom, i(1000000)))
+		}},
+		c12ConsVariant{"liquidity.Unfarm", "coin=uasset1 instead of the pool coin", "A", nil, func(w *c12World, s sdk.AccAddress, _ sdk.Context) sdk.Msg {
+			return liquiditytypes.NewMsgUnfarm(w.appLiq, w.liqPool, s, coin("uasset1", 1000000))
+		}},
+		c12ConsVariant{"liquidity.CancelOrder", "app=vault app", "A", nil, func(w *c12World, s sdk.AccAddress, _ sdk.Context) sdk.Msg {
+			return liquiditytypes.NewMsgCancelOrder(w.appVault, s, w.liqPair, w.orderA)
+		}},
+		// limit bid: denom vs the stored bid
+		c12ConsVariant{"auctionsV2.MsgWithdrawLimitBid", "denom=uasset1 on the uasset2 bid", "A", nil, func(w *c12World, s sdk.AccAddress, _ sdk.Context) sdk.Msg {
+			return &auctionsV2types.MsgWithdrawLimitBidRequest{CollateralTokenId: w.a1, DebtTokenId: w.a2, PremiumDiscount: i(5), Bidder: s.String(), Amount: coin("uasset1", 1000000)}
+		}},
+		// liquidation / gen-1 auction: app id vs the vault's / the auction's app
+		c12ConsVariant{"liquidation.MsgLiquidateVault", "app=another liquidation-enabled app", "B", func(w *c12World, ctx sdk.Context) {
+			c12Unhealthy(w, ctx)
+			_ = w.app.LiquidationKeeper.WasmWhitelistAppIDLiquidation(ctx, w.appLend)
+		}, func(w *c12World, s sdk.AccAddress, _ sdk.Context) sdk.Msg {
+			return &liquidationtypes.MsgLiquidateVaultRequest{From: s.String(), AppId: w.appLend, VaultId: w.vaultA}
+		}},
+	)
+	gen1 := func(w *c12World, ctx sdk.Context) {
+		c12Unhealthy(w, ctx)
+		w.mustDeliver(ctx, &liquidationtypes.MsgLiquidateVaultRequest{From: w.B.String(), AppId: w.appVault, VaultId: w.vaultA}, "gen-1 auction")
+	}
+	for _, v := range []struct {
+		variant      string
+		app, mapping func(w *c12World, a auctiontypes.DutchAuction) uint64
+	}{
+		{"app=lend app", func(w *c12World, a auctiontypes.DutchAuction) uint64 { return w.appLend }, func(w *c12World, a auctiontypes.DutchAuction) uint64 { return a.AuctionMappingId }},
+		{"mapping id=another auction type", func(w *c12World, a auctiontypes.DutchAuction) uint64 { return a.AppId }, func(w *c12World, a auctiontypes.DutchAuction) uint64 { return a.AuctionMappingId - 1 }},
+	} {
+		v := v
+		out = append(out, c12ConsVariant{"auction.MsgPlaceDutchBid", v.variant, "B", gen1, func(w *c12World, s sdk.AccAddress, ctx sdk.Context) sdk.Msg {
+			as := w.app.AuctionKeeper.GetDutchAuctions(ctx, w.appVault)
+			if len(as) == 0 {
+				w.t.Fatalf("no gen-1 dutch auction")
+			}
+			return &auctiontypes.MsgPlaceDutchBidRequest{AuctionId: as[0].AuctionId, Bidder: s.String(), Amount: coin("uasset1", 1000000), AppId: v.app(w, as[0]), AuctionMappingId: v.mapping(w, as[0])}
+		}})
+	}
+	return out
+}
+
+func c12Consistency(t *testing.T, tr *Trace, w *c12World) {
+	cells := 0
+	for _, v := range c12ConsVariants() {
+		for _, days := range []int{0, 30} {
+			c := c12Case{handler: v.handler, owner: v.who, app: "vault", prep: v.prep}
+			ctx := w.stage(c12Scn{esm: "none", price: "all", days: days}, c)
+			msg := v.mk(w, w.actor(v.who), ctx)
+			before := w.dump(ctx)
+			r := w.deliver(ctx, before, "", msg)
+			scn := fmt.Sprintf("cons/d%d/%s", days, v.who)
+			tr.Line("grd.begin", v.handler, scn+"/"+v.variant)
+			kind := "cons"
+			if strings.Contains(v.variant, "(close shortcut)") {
+				// Known quirk of the unchanged code, recorded but not monitored (notes/C12.md): RepayAsset's exact-debt shortcut
+				// runs CloseBorrow before the denom of the payment is looked at; the OWNER's borrow is closed and paid in the
+				// borrow's own denom although the message names another denom. No id is involved, the signer is the owner.
+				kind = "info"
+			}
+			tr.Line("grd.cons", v.handler, scn, kind+": "+v.variant, r.outcome, c12b01(r.parentEmpty))
+			tr.Count("cons:" + v.handler + ":" + r.outcome)
+			cells++
+			if r.outcome == "ok" {
+				t.Logf("consistency: %s (%s) accepted, changed %v", v.handler, v.variant, r.changed)
+			}
+		}
+	}
+	tr.Set("consistency_cells", cells)
+}
+
 func c12KillSwitch(t *testing.T, tr *Trace, w *c12World) {
 	c := c12Case{handler: "esm.MsgKillSwitch", owner: "admin", app: "vault"}
 	for _, on := range []bool{true, false} {
@@ -1600,6 +1830,7 @@ func TestC14(t *testing.T) {
 		}
 	}
 	c14PriceSubsets(t, tr, w, cat)
+	c14TimeWindows(t, tr, w)
 	c14Units(t, tr, w)
 	c14Sweeps(t, tr, w)
 	if thorough() {
@@ -1688,6 +1919,76 @@ func c14PriceSubsets(t *testing.T, tr *Trace, w *c12World, cat []c12Case) {
 		run(rest, true, true)
 	}
 	tr.Set("price_cells", cells)
+}
+
+// ---------------------------------------------------------------------------------------------
+// time-window guards at nanosecond resolution
+
+// c14TimeWindows: the ESM cool-off end T is a full time value (nanoseconds). Vault withdrawal is allowed until T
+// (`BlockTime().After(EndTime) && status` refuses it), collateral redemption from T on (`BlockTime().Before(EndTime) && status`
+// refuses it). Each window is probed at T−1 ns, T, T+1 ns, T+400 ms, T+999 ms, T+1 s (and T−1 s), for an end time on a whole
+// second and for end times that are not.
+func c14TimeWindows(t *testing.T, tr *Trace, w *c12World) {
+	deltas := []time.Duration{-time.Second, -time.Nanosecond, 0, time.Nanosecond, 400 * time.Millisecond, 999 * time.Millisecond, time.Second, time.Hour}
+	fracs := []time.Duration{0, 123456789 * time.Nanosecond, 999999999 * time.Nanosecond, 500 * time.Millisecond}
+	cells := 0
+	type win struct {
+		handler, kind string // kind "until": allowed while now <= T; "from": allowed when now >= T
+		who           string
+		mk            func(w *c12World, s sdk.AccAddress) sdk.Msg
+		closedErr     error
+	}
+	wins := []win{
+		{"vault.MsgWithdraw", "until", "A", func(w *c12World, s sdk.AccAddress) sdk.Msg {
+			return &vaulttypes.MsgWithdrawRequest{From: s.String(), AppId: w.appVault, ExtendedPairVaultId: w.extPair, UserVaultId: w.vaultA, Amount: sdk.NewInt(1000000)}
+		}, esmtypes.ErrCoolOffPeriodPassed},
+		{"esm.MsgCollateralRedemption", "from", "B", func(w *c12World, s sdk.AccAddress) sdk.Msg {
+			return &esmtypes.MsgCollateralRedemptionRequest{AppId: w.appVault, Amount: coin("uasset2", 1000000), From: s.String()}
+		}, esmtypes.ErrCoolOffPeriodRemains},
+	}
+	for _, wn := range wins {
+		for _, frac := range fracs {
+			for _, d := range deltas {
+				ctx, _ := w.ctx.CacheContext()
+				start := w.ctx.BlockTime().Add(time.Minute)
+				end := start.Add(time.Hour).Truncate(time.Second).Add(frac)
+				ctx = ctx.WithBlockTime(start).WithBlockHeight(w.ctx.BlockHeight() + 10)
+				w.app.EsmKeeper.SetESMStatus(ctx, esmtypes.ESMStatus{AppId: w.appVault, Executor: w.B.String(), Status: true, StartTime: start, EndTime: end})
+				esm.BeginBlocker(ctx, abci.RequestBeginBlock{}, w.app.EsmKeeper, w.app.AssetKeeper) // price snapshot, as one block after ExecuteESM
+				ctx = ctx.WithBlockTime(end.Add(d)).WithBlockHeight(ctx.BlockHeight() + 600)
+				msg := wn.mk(w, w.actor(wn.who))
+				before := w.dump(ctx)
+				// deliver, keeping the error value to tell the window guard's own error from any other
+				tx, _ := ctx.CacheContext()
+				var err error
+				panicked, _ := try(func() {
+					if err = msg.ValidateBasic(); err != nil {
+						return
+					}
+					mctx, write := tx.CacheContext()
+					if _, err = w.app.MsgServiceRouter().Handler(msg)(mctx, msg); err == nil {
+						write()
+					}
+				})
+				outcome := "ok"
+				switch {
+				case panicked:
+					outcome = "panic"
+				case err != nil && errors.Is(err, wn.closedErr):
+					outcome = "err:window"
+				case err != nil:
+					outcome = "err:other"
+				}
+				empty := len(diffStores(before, w.dump(tx))) == 0
+				scn := fmt.Sprintf("end+%dns/delta%+dns", frac.Nanoseconds(), d.Nanoseconds())
+				tr.Line("grd.begin", wn.handler, scn)
+				tr.Line("grd.time", wn.handler, wn.kind, fmt.Sprint(end.UnixNano()), fmt.Sprint(d.Nanoseconds()), outcome, c12b01(empty))
+				tr.Count("time:" + wn.handler + ":" + outcome)
+				cells++
+			}
+		}
+	}
+	tr.Set("time_cells", cells)
 }
 
 // ---------------------------------------------------------------------------------------------
